@@ -8,7 +8,7 @@ from ..core import Check, derive_seed
 def run(check):
     check.rule = ("the runner is rebuilt with -race (instrumented engine files included) and executes: generated run-mode cases of all shapes with failures, "
                   "random delay plans, cancellation at logical instants, overlapping Execute calls on one prepared workflow, and the parallel-API workload "
-                  "(several goroutines doing FromYAML+Prepare+Execute of equal texts, sharing one step registry); GORACE=halt_on_error=0 log_path=..., reports "
+                  "(several goroutines doing FromYAML+Prepare+Execute of equal texts, sharing one step registry), also as the very first action of a fresh process; GORACE=halt_on_error=0 log_path=..., reports "
                   "are counted from the log files and de-duplicated by the innermost engine frame pair; a report is a violation if either stack has a frame of "
                   "go.flow.arcalot.io/engine outside the harness; non-trivial/distinct = distinct (workload family, shape) executed under the detector")
     check.assumptions = ["the race detector only sees executed interleavings and has a bounded history window"]
@@ -71,6 +71,21 @@ def run(check):
             g["family"] = "cancel"
         items += cc
         out = rn.run_cases([c for c, _s, _g in items], per_case_timeout=75)
+        # the very first parses of a process made by several goroutines at once (lazily built package-level state):
+        # one child process per case
+        first = []
+        for j in range(check.pick(10, 40)):
+            rng = random.Random(derive_seed(check.seed, "c17-first", j))
+            g = runfam.gen_terminating(check.seed, "c17-first-%d" % j, p_fail=0.0)
+            if g is None:
+                continue
+            case, sem = runfam.build_case("c17-f%04d" % j, g, no_events=True)
+            case["mode"] = "papi"
+            case["extra"] = {"workers": rng.choice([4, 8, 12]), "iterations": 1, "share_prepared": False}
+            g["family"] = "first-parse-in-parallel"
+            first.append((case, sem, g))
+        items += first
+        out.update(rn.run_cases([c for c, _s, _g in first], per_case_timeout=75, chunk=1))
         reports = list(rn.race_reports)
     by_id = {c["id"]: (c, s, g) for c, s, g in items}
     for cid, o in sorted(out.items()):
